@@ -259,10 +259,16 @@ def run(chk, R, tier, seed):
             kw["smallest_fraction"] = rng.choice(
                 [num(frac, "D"), num(frac, "s"), num(frac, "F")])
         elif form == "both":
-            minor = rng.choice([0, 1, 2, 3])
-            frac = F(1, 10 ** minor)
+            minor, frac = rng.choice([(0, F(1)), (1, F(1, 10)), (2, F(1, 100)),
+                                      (3, F(1, 1000)), (2, F(5, 100)),
+                                      (2, F(25, 100)), (1, F(5, 10)),
+                                      (3, F(5, 1000)), (2, F(20, 100))])
             kw["minor_unit"] = ["i", minor]
-            kw["smallest_fraction"] = num(frac, "D") if minor else ["D", "1"]
+            kw["smallest_fraction"] = ["D", "1"] if frac == 1 else \
+                rng.choice([num(frac, "D"), num(frac, "s")])
+            if frac == F(20, 100):
+                # '0.20' has precision 2 and divides 1
+                kw["smallest_fraction"] = ["s", "0.20"]
             if minor == 0:
                 # Decimal(1).precision == 0 fits minor_unit 0
                 pass
